@@ -109,9 +109,9 @@ QLoop(d, weight, i, wsf) ==
 Quantile(d, q) ==
   LET w == W(d)  n == N(d)  weight == RMul(q, RI(w))
       fw == Wt(d, 1)  lw == Wt(d, n) IN
-  IF n = 1 THEN RI(Mean(d, 1))
-  ELSE IF RLt(weight, RI(1)) THEN RI(d.min)
+  IF RLt(weight, RI(1)) THEN RI(d.min)
   ELSE IF RLt(RI(w - 1), weight) THEN RI(d.max)
+  ELSE IF n = 1 /\ fw = 1 THEN RI(Mean(d, 1))       \* (a single value; not reachable: w = 1)
   ELSE IF fw > 1 /\ RLt(weight, RHalf(fw))
   THEN RAdd(RI(d.min), RMul(RDiv(RSub(weight, RI(1)), RSub(RHalf(fw), RI(1))), RI(Mean(d, 1) - d.min)))
   ELSE IF lw > 1 /\ RLe(RSub(RI(w), weight), RHalf(lw))
@@ -137,8 +137,8 @@ QuantileMonotone(d, qs) ==
   /\ \A i, j \in 1..Len(qs) : (i < j /\ IsDef(qt[i]) /\ IsDef(qt[j])) => RLe(qt[i], qt[j])
 
 EndPoints(d) ==
-  /\ REq(Quantile(d, RI(0)), RI(d.min)) \/ N(d) = 1
-  /\ REq(Quantile(d, RI(1)), RI(d.max)) \/ N(d) = 1
+  /\ REq(Quantile(d, RI(0)), RI(d.min))
+  /\ REq(Quantile(d, RI(1)), RI(d.max))
   /\ REq(Rank(d, <<2 * d.min - 1, 2>>), RI(0))
   /\ REq(Rank(d, <<2 * d.max + 1, 2>>), RI(1))
 
